@@ -122,6 +122,7 @@ type VP9Desc struct {
 	NS            uint8 // N_S (layers - 1)
 	Y, G          bool
 	SSRes         uint8 // 3 reserved bits
+	PGRes         uint8 // 2 reserved bits of every picture-group octet
 	Width, Height []uint16
 	NG            uint8
 	PGTID         []uint8
@@ -164,7 +165,7 @@ func (d *VP9Desc) Encode() []byte {
 		if d.G {
 			b = append(b, d.NG)
 			for i := 0; i < int(d.NG); i++ {
-				b = append(b, d.PGTID[i]<<5|b2u(d.PGU[i], 0x10)|byte(len(d.PGPDiff[i]))<<2)
+				b = append(b, d.PGTID[i]<<5|b2u(d.PGU[i], 0x10)|byte(len(d.PGPDiff[i]))<<2|d.PGRes&3)
 				b = append(b, d.PGPDiff[i]...)
 			}
 		}
